@@ -390,13 +390,14 @@ def sumproduct(*args):
     if len(sizes) != 1:
         return VALUE_ERROR
 
-    # put the values into numpy vectors
-    values = np.array(tuple(tuple(
+    # non numbers count as 0
+    values = tuple(tuple(
         x if isinstance(x, (float, int)) and not isinstance(x, bool) else 0
-        for x in flatten(arg)) for arg in args))
+        for x in flatten(arg)) for arg in args)
 
-    # return the sum product
-    return np.sum(np.prod(values, axis=0))
+    # return the sum product: python numbers, a numpy integer in a cell is
+    # not a number for SUM / COUNT of that cell and wraps at 64 bits
+    return sum(prod(column) for column in zip(*values))
 
 
 @excel_math_func
